@@ -755,15 +755,15 @@ def executable_lines(relpath):
         for k in c.co_consts:
             if hasattr(k, "co_lines"):
                 stack.append(k)
-    # module-level and def lines are executed at import: drop lines of the module code
-    # that are only 'def'/'import' statements by keeping function bodies only
+    # only function bodies: module and class bodies run at import time, before monitoring starts
     body = set()
     stack = [k for k in top.co_consts if hasattr(k, "co_lines")]
     while stack:
         c = stack.pop()
-        for _, _, ln in c.co_lines():
-            if ln is not None and ln != c.co_firstlineno:
-                body.add(ln)
+        if c.co_flags & 0x1:      # CO_OPTIMIZED: a function, not a class body
+            for _, _, ln in c.co_lines():
+                if ln is not None and ln != c.co_firstlineno:
+                    body.add(ln)
         for k in c.co_consts:
             if hasattr(k, "co_lines"):
                 stack.append(k)
